@@ -236,8 +236,11 @@ class Vector():
 			return hash(x)
 
 		if isinstance(x, set):
-			rep = _safe_sortable_list(list(x))
-			return Vector._hash_element(tuple(rep))
+			# An unordered collection like the dict below (sorted() does not put frozensets or
+			# mixed members into one order, so equal sets hashed differently), marked as a set:
+			# {1, 2} is neither (1, 2) nor [1, 2]
+			members = sorted(Vector._hash_element(e) for e in x)
+			return Vector._hash_element(("set", len(members), tuple(members)))
 
 		if isinstance(x, dict):
 			# Equal dicts hash alike whatever their insertion order (the repr() fallback
@@ -249,7 +252,8 @@ class Vector():
 			# Seed with the length and scramble the result: a bare polynomial is linear, so
 			# (0, 1), (1,) and 1 - and ((1, 2), 3), (1, 2, 3) and (1, 2, (3,)) - hashed alike
 			# and replacing one by another went unnoticed
-			h = len(x) + 1
+			# (... and a list is not the tuple of its items)
+			h = 2 * len(x) + (1 if isinstance(x, tuple) else 2)
 			for elem in x:
 				h = (h * B + Vector._hash_element(elem)) % P
 			h ^= h >> 31
